@@ -68,3 +68,4 @@ static int spec_find(uint32_t key)
     for (int i = 0; i < 8; i++) { if (i < G_DNUM && DEV(G_DROOT[i].Key) == DEV(key)) { r = i; } }
     return r;
 }
+int G_MUX_I, G_MUX0_I;
